@@ -136,19 +136,22 @@ class E2ERun:
             else:
                 self.log(ev="Op", op=do, a=st["a"])
                 a = st["a"]
-                if do == "control_device":
-                    await api.control_device(Command.ON if a["on"] else Command.OFF, a["minutes"])
-                elif do == "set_auto_shutdown":
-                    await api.set_auto_shutdown(timedelta(seconds=a["secs"]))
-                elif do == "set_device_name":
-                    await api.set_device_name("".join(chr(c) for c in a["cps"]))
-                elif do == "set_position":
-                    await api.set_position(a["pos"])
-                elif do == "stop":
-                    await api.stop()
-                elif do == "update_state":
-                    await api.control_breeze_device(SwitcherBreezeRemote(IRSET), DeviceState.ON if a["state"] else DeviceState.OFF, M[a["mode"]], a["temp"],
-                                                    F[a["fan"]], ThermostatSwing.ON if a["swing"] else ThermostatSwing.OFF, update_state=True)
+                try:
+                  if do == "control_device":
+                      await api.control_device(Command.ON if a["on"] else Command.OFF, a["minutes"])
+                  elif do == "set_auto_shutdown":
+                      await api.set_auto_shutdown(timedelta(seconds=a["secs"]))
+                  elif do == "set_device_name":
+                      await api.set_device_name("".join(chr(c) for c in a["cps"]))
+                  elif do == "set_position":
+                      await api.set_position(a["pos"])
+                  elif do == "stop":
+                      await api.stop()
+                  elif do == "update_state":
+                      await api.control_breeze_device(SwitcherBreezeRemote(IRSET), DeviceState.ON if a["state"] else DeviceState.OFF, M[a["mode"]], a["temp"],
+                                                      F[a["fan"]], ThermostatSwing.ON if a["swing"] else ThermostatSwing.OFF, update_state=True)
+                except Exception as x:  # noqa: BLE001 - every request here has accepted arguments and the device answers: judged by the specification
+                    self.log(ev="OpRaised", exc=type(x).__name__)
             data = sim.broadcast()
             self.log(ev="Bcast", b=list(data))
             seen.clear()
